@@ -33,7 +33,7 @@ YOUR TASK: make ONE small, realistic change to the library source (the kind of s
   (b) the existing test suite still passes: `cd /tmp/wt-{pid} && CARGO_NET_OFFLINE=true cargo test --workspace --no-fail-fast --offline` (55 tests; note the tests rewrite some files under samples/ — ignore those, do not include them in your patch), and
   (c) the breakage needs something SPECIFIC to manifest — an unusual input or parameter value, a particular multi-step sequence, a crafted (adversarial) object, a boundary case, or two cooperating sites that each look fine alone. It must NOT be something ordinary use would expose at once.
 
-Then write a DEMONSTRATION: a new integration test file `tests/demo_{pid.lower()}.rs` (using only the crate's public API; objects with private fields can be crafted by editing their serde_json text form and parsing it back with serde_json::from_str) that FAILS with your change and PASSES on the unchanged code. Verify both facts yourself: run the demo with your change applied (must fail), then `git stash` the source change (keep the demo), run it again (must pass), then restore the change.
+Then write a DEMONSTRATION: a new integration test file `tests/demo_{pid.lower()}.rs` (using only the crate's public API; objects with private fields can be crafted by editing their serde_json text form and parsing it back with serde_json::from_str) that FAILS with your change and PASSES on the unchanged code. Verify both facts yourself: run the demo with your change applied (must fail), then remove the source change with `git diff -- src > seed/patch.diff && git apply -R seed/patch.diff` (keep the demo), run it again (must pass), then restore the change with `git apply seed/patch.diff`. NEVER use `git stash`: the stash is shared with other worktrees of this repository that other people are using at the same time.
 
 Deliverables (write these files, all under /tmp/wt-{pid}/):
   - `seed/patch.diff`  : `git diff` of the library source change only (src/ files; not the demo, not samples/)
